@@ -107,7 +107,7 @@ def run_tlc(wd, module, cfg, *, workers=None, env=None, timeout=3600, simulate=N
         cmd += ["-coverage", "1"]
     cmd += list(extra) + [module + ".tla"]
     e = dict(os.environ)
-    jopts = "-Xmx24g"
+    jopts = "-Xmx24g -Xss128m"       # deep recursion of folds over long inputs
     if deque:
         jopts += " -Dtlc2.tool.queue.IStateQueue=StateDeque"
     e["JAVA_TOOL_OPTIONS"] = jopts
@@ -157,8 +157,9 @@ def run_tlc(wd, module, cfg, *, workers=None, env=None, timeout=3600, simulate=N
         for mm in re.finditer(r"<(\w+) line \d+, col \d+ to line \d+, col \d+ of module (\w+)>: (\d+):(\d+)", out):
             r.coverage[mm.group(1)] = (int(mm.group(3)), int(mm.group(4)))
     if not r.ok and not r.violated:
-        tail = out[-3000:]
-        raise MachineryError(f"TLC failed on {module} (rc={p.returncode}):\n{tail}")
+        lines = [l for l in out.splitlines() if not l.startswith('"')]
+        i = next((k for k, l in enumerate(lines) if "Error" in l or "Exception" in l), max(0, len(lines) - 30))
+        raise MachineryError(f"TLC failed on {module} (rc={p.returncode}):\n" + "\n".join(l[:400] for l in lines[i:i + 30]))
     return r
 
 
